@@ -358,4 +358,14 @@ func Stack.PopOrWait$1
   modifies monitor(*b)
   ensures unlocked((*b).mutex)
   ensures mydebt((*b).elementRemoved) == ((*success && old(mydebt((*b).elementRemoved)) > 0) ? old(mydebt((*b).elementRemoved)) - 1 : old(mydebt((*b).elementRemoved)))
+-- SignalShutdown wakes the goroutines asleep in PopOrWait WITHOUT taking the stack's lock: its callers hold locks that a
+-- wait condition evaluated under the stack's lock asks for (the worker pool: Shutdown holds the pool mutex, the dispatcher's
+-- wait condition is IsRunning) - taking the stack's lock here closes a lock-order cycle
+func Stack.SignalShutdown
+  instantiate T: int
+  opt debts-change
+  requires b != nil && b.elementAdded != nil
+  modifies monitor(b)
+  ghost after acquire: assert false
+  ensures mydebt(b.elementAdded) == (old(mydebt(b.elementAdded)) > 0 ? old(mydebt(b.elementAdded)) - 1 : old(mydebt(b.elementAdded)))
 @*/
